@@ -106,19 +106,19 @@ fn history(n: usize) {
         }
     }
 }
-// HARNESS props=C17,C06 tier=quick profile=ops_hist shape="constructor, then ANY 2 transactions over {add_operator, remove_operator, transfer_ownership} with arbitrary arguments (4 principals, arbitrary authorisations), then is_operator and execute for an arbitrary principal"
+// HARNESS props=C17,C06,C07 tier=quick profile=ops_hist shape="constructor, then ANY 2 transactions over {add_operator, remove_operator, transfer_ownership} with arbitrary arguments (4 principals, arbitrary authorisations), then is_operator and execute for an arbitrary principal"
 #[kani::proof]
 #[kani::stub(soroban_sdk::model::invoke_raw, probe)]
 fn c17_history_2() {
     history(2)
 }
-// HARNESS props=C17,C06 tier=thorough profile=ops_hist shape="constructor, then ANY 4 transactions over {add_operator, remove_operator, transfer_ownership}, then is_operator and execute"
+// HARNESS props=C17,C06,C07 tier=thorough profile=ops_hist shape="constructor, then ANY 4 transactions over {add_operator, remove_operator, transfer_ownership}, then is_operator and execute"
 #[kani::proof]
 #[kani::stub(soroban_sdk::model::invoke_raw, probe)]
 fn c17_history_4() {
     history(4)
 }
-// HARNESS props=C17,C06 tier=thorough profile=ops_hist6 shape="constructor, then ANY 6 transactions over {add_operator, remove_operator, transfer_ownership}, then is_operator and execute"
+// HARNESS props=C17,C06,C07 tier=thorough profile=ops_hist6 shape="constructor, then ANY 6 transactions over {add_operator, remove_operator, transfer_ownership}, then is_operator and execute"
 #[kani::proof]
 #[kani::stub(soroban_sdk::model::invoke_raw, probe)]
 fn c17_history_6() {
